@@ -72,13 +72,15 @@ def op_strategies(set_funcs=SET_FUNCS, list_funcs=LIST_FUNCS, symbols=False, loa
             fields["mis"] = st.sampled_from([0, 0, 0, 1, 2])
             fields["as"] = st.one_of(how, how, how, how, st.just("boom"))
             fields["bk"] = st.integers(0, 3)
+        if f == "insert":
+            fields["huge"] = st.sampled_from([0, 0, 0, 0, 1, 2, 3, 4, 5])
         if f == "remove":
             fields["xk"] = st.sampled_from([0, 0, 0, 1, 2, 3])
         if f == "pop":
             fields["arg"] = st.booleans()
         ops["list." + f] = progs.op("list", **fields)
     if new:
-        ops["new"] = progs.op("new", k=st.sampled_from(forest.KINDS), p=par, cs=cs, ck=st.integers(0, 2), shape=st.integers(0, 3))
+        ops["new"] = progs.op("new", k=st.sampled_from(forest.KINDS), p=par, cs=cs, ck=st.integers(0, 2), shape=st.integers(0, 5))
     if load:
         ops["load"] = progs.op("load", i=st.integers(0, 4))
     if edits:
